@@ -35,6 +35,31 @@ def log(*a):
 
 
 # ---------------------------------------------------------------- builds
+import contextlib, fcntl
+
+@contextlib.contextmanager
+def build_lock():
+    """checks may run at the same time: everything that WRITES shared build products (the .vo files, the extracted model, the harness
+    module files and binaries, coq/gen) is done by one process at a time"""
+    os.makedirs(BUILD, exist_ok=True)
+    with open(os.path.join(BUILD, ".buildlock"), "w") as f:
+        fcntl.flock(f, fcntl.LOCK_EX)
+        try:
+            yield
+        finally:
+            fcntl.flock(f, fcntl.LOCK_UN)
+
+
+def _locked(fn):
+    import functools
+    @functools.wraps(fn)
+    def w(*a, **k):
+        with build_lock():
+            return fn(*a, **k)
+    return w
+
+
+@_locked
 def build_coq():
     """full .vo build (no quick modes). Returns (ok, output)."""
     mk = os.path.join(COQ, "Makefile")
@@ -47,6 +72,7 @@ def build_coq():
     return rc == 0, o
 
 
+@_locked
 def build_coq_targets(targets):
     """build only the given .vo targets (and their dependencies)."""
     mk = os.path.join(COQ, "Makefile")
@@ -59,6 +85,7 @@ def build_coq_targets(targets):
     return rc == 0, o
 
 
+@_locked
 def build_model():
     """extract the model and build build/modelrun (only when a theory is newer than the binary)."""
     os.makedirs(BUILD, exist_ok=True)
@@ -79,16 +106,25 @@ def build_model():
     return rc == 0, o + o2
 
 
+@_locked
 def build_harness(race=False):
     """(re)build the Go harness against the CURRENT working tree of the repository under test."""
     os.makedirs(BUILD, exist_ok=True)
     hd = os.path.join(ROOT, "harness")
     gomod = ("module verifharness\n\ngo 1.22\n\nrequire github.com/cybergarage/go-redis v0.0.0\n\n"
              "replace github.com/cybergarage/go-redis => %s\n" % REPO)
-    with open(os.path.join(hd, "go.mod"), "w") as f:
-        f.write(gomod)
-    with open(os.path.join(REPO, "go.sum")) as f, open(os.path.join(hd, "go.sum"), "w") as g:
-        g.write(f.read())
+    def put(path, text):
+        try:
+            if open(path).read() == text:
+                return
+        except OSError:
+            pass
+        tmp = path + ".tmp%d" % os.getpid()
+        with open(tmp, "w") as f:
+            f.write(text)
+        os.replace(tmp, path)
+    put(os.path.join(hd, "go.mod"), gomod)
+    put(os.path.join(hd, "go.sum"), open(os.path.join(REPO, "go.sum")).read())
     exe = os.path.join(BUILD, "harness_race" if race else "harness")
     cmd = ["go", "build", "-tags", "verif"] + (["-race"] if race else []) + ["-o", exe, "."]
     rc, o, _ = sh(cmd, cwd=hd, env=GOENV, timeout=900)
@@ -117,6 +153,7 @@ def hygiene():
     return bad
 
 
+@_locked
 def props_status(pid):
     """compile props/<pid>.v (its dependencies must be built) and read back what it proves.
     returns dict(obligations, discharged, theorems, axioms, ok, output)"""
